@@ -202,6 +202,34 @@ fn blobs_family(thorough: bool) -> ActionFamily {
     }
 }
 
+fn lists_family(thorough: bool) -> ActionFamily {
+    ActionFamily {
+        name: "lists",
+        tops: vec![
+            ext_print(),
+            Top::External { name: "list_push".into(), ty: "fn [*ITEM], *ITEM -> void".into() },
+            Top::External { name: "xx_len".into(), ty: "fn [*ITEM] -> int".into() },
+        ],
+        prologue: vec![def("l1", Expr::List(vec![int(1), int(2)])), def("l2", var("l1")), def("l3", Expr::List(vec![int(1), int(2)])), def("ll", Expr::List(vec![var("l1")]))],
+        actions: vec![
+            vec![Stmt::Expr(callv("list_push", vec![var("l1"), int(3)]))],
+            vec![Stmt::Expr(callv("list_push", vec![var("l2"), callv("xx_len", vec![var("l1")])]))],
+            vec![Stmt::Expr(callv("list_push", vec![var("l3"), int(3)]))],
+            vec![print_of(var("l2"))],
+            vec![print_of(bin(BinOp::Eq, var("l1"), var("l3")))],
+            vec![print_of(bin(BinOp::Ne, var("l2"), var("l1")))],
+            vec![assign("l2", Expr::List(vec![int(1), int(2)]))],
+            vec![print_of(callv("xx_len", vec![var("l1")]))],
+            vec![Stmt::Expr(callv("list_push", vec![var("ll"), var("l3")]))],
+            vec![print_of(var("ll"))],
+            vec![print_of(bin(BinOp::Eq, var("ll"), Expr::List(vec![var("l3")])))],
+        ],
+        epilogue: vec![print_of(Expr::Tuple(vec![var("l1"), var("l2"), var("l3")])), print_of(var("ll"))],
+        max_len: if thorough { 4 } else { 3 },
+        wrap: None,
+    }
+}
+
 fn enums_family(thorough: bool) -> ActionFamily {
     let describe = top_fn(
         "describe",
@@ -411,6 +439,7 @@ pub fn all_programs_len(max_len: usize) -> Vec<(String, Program)> {
     fams.push(closures_family(false));
     fams.push(blobs_family(false));
     fams.push(enums_family(false));
+    fams.push(lists_family(false));
     fams.push(globals_family(false));
     for mut f in fams {
         f.max_len = max_len;
